@@ -7,7 +7,9 @@ import WK.Spec.C40
     bt ev … ; ev … ; …                                                   one meta.Batch of appends, committed once
     nd <ch> <ct> <no> <id> <key> <type> <vis> <occ> <payload> <upd>   Node.AppendMessageEvent on the slot leader
                                                                          (real stream cache; durable writes through the real slot FSM)
-    lose                                                                 the leader loses its stream cache
+    lose                                                                 the leader restarts (empty stream cache)
+    rt <l1> <l2> <owners>                                                real route-table change: leaders of Slot 1 / Slot 2 (node 1|2),
+                                                                         owners = one digit (1|2) per hash slot, e.g. 1121
     q <ch> <ct> <no>                                                     read cursor and lanes
 
   payload descriptor:  -            empty
@@ -164,6 +166,7 @@ def judgeEvent (j : JSt) (raw : RawEvent) (node : Bool) (impl : String) : JSt ×
     match fs with
     | ["invalid"] => (j, "ok")     -- refusing is always fail-closed; the model diff reports the disagreement
     | ["cachemiss"] => (j, "ok")
+    | ["notleader"] => (j, "ok")
     | "ok" :: k :: sq :: st :: _ :: rest =>
       match hexDecode k, sq.toNat?, pSt st, pObs rest with
       | some k, some sq, some st, some new =>
@@ -203,6 +206,18 @@ def judgeEvent (j : JSt) (raw : RawEvent) (node : Bool) (impl : String) : JSt ×
 def c40Step (j : JSt) (op impl : String) : JSt × String × String :=
   match fields op with
   | ["lose"] => ({ j with n := loseCache j.n, pending := [], sess := [] }, "ok", "ok")
+  | ["rt", a, b, os] =>
+    let own := os.toList.map fun c => c.toNat - 48
+    match a.toNat?, b.toNat? with
+    | some l1, some l2 =>
+      if l1 > 2 || l2 > 2 || l1 == 0 || l2 == 0 || own.length != j.n.route.own.length || !(own.all fun o => o == 1 || o == 2) then (j, "bad-op", "ok") else
+      let r : Route := ⟨l1, l2, own⟩
+      -- the judge's view of which cached sessions an honest leader must forget
+      let lost := lostSlots j.n.route r
+      let gone := fun (m : MsgKey) => lost.contains (hashSlotOf m.ch own.length)
+      ({ j with n := setRoute j.n r, pending := j.pending.filter (fun p => !gone p.1), sess := j.sess.filter (fun m => !gone m) },
+        "ok", "ok")
+    | _, _ => (j, "bad-op", "ok")
   | ["q", ch, ct, no] =>
     match hexDecode ch, pInt64 ct, hexDecode no with
     | some ch, some ct, some no =>
@@ -235,6 +250,7 @@ def c40Step (j : JSt) (op impl : String) : JSt × String × String :=
       let out := match e, res, normalize raw with
         | .ok, some r, some ev => "ok " ++ resStr r ++ " " ++ obsStr (obsOf n'.db ev.msg)
         | .cachemiss, _, _ => "cachemiss"
+        | .notleader, _, _ => "notleader"
         | _, _, _ => "invalid"
       let j1 := { j with n := n' }
       let (j2, v) := judgeEvent j1 raw true impl
